@@ -19,10 +19,17 @@ def main():
     checks = ALL
     if "--checks" in sys.argv:
         checks = sys.argv[sys.argv.index("--checks") + 1].split()
+    dflags = ""
+    cxx = "g++"
+    if "--demo-flags" in sys.argv:
+        dflags = sys.argv[sys.argv.index("--demo-flags") + 1]
+    if "--cxx" in sys.argv:
+        cxx = sys.argv[sys.argv.index("--cxx") + 1]
     wt = "/tmp/seed_%s" % prop
     src = os.path.join(wt, "OUT", var)
     patch = os.path.join(src, "patch.diff")
-    meta = {"property": prop, "variant": var, "worktree": wt, "when": time.strftime("%Y-%m-%d %H:%M")}
+    meta = {"property": prop, "variant": var, "worktree": wt, "when": time.strftime("%Y-%m-%d %H:%M"),
+            "demo_build": "%s -std=gnu++17 -O1 -I<tree>/include demo.cpp -lpthread %s" % (cxx, dflags)}
     sh("git -C %s checkout -- include" % wt)
     r = sh("git -C %s apply --check %s" % (wt, patch))
     if r.returncode != 0:
@@ -35,7 +42,7 @@ def main():
         b = sh("cmake --build %s/_build -j16 2>&1 | tail -2" % wt)
         t = sh("ctest --test-dir %s/_build -j8 --timeout 900 2>&1 | tail -3" % wt)
         meta["tests_with_change"] = t.stdout.strip().splitlines()[0] if t.stdout.strip() else b.stdout[-300:]
-        d = sh("g++ -std=gnu++17 -O1 -I%s/include %s/demo.cpp -o /var/tmp/seed_demo_%s_%s -lpthread" % (wt, src, prop, var))
+        d = sh("%s -std=gnu++17 -O1 -I%s/include %s/demo.cpp -o /var/tmp/seed_demo_%s_%s -lpthread %s" % (cxx, wt, src, prop, var, dflags))
         if d.returncode != 0:
             meta["demo_with_change"] = "demo does not compile: " + d.stderr[-300:]
         else:
@@ -54,7 +61,7 @@ def main():
         meta["analysis_broken"] = sorted(c for c, v in res.items() if v["exit"] == 2)
     finally:
         sh("git -C %s checkout -- include" % wt)
-    d = sh("g++ -std=gnu++17 -O1 -I%s/include %s/demo.cpp -o /var/tmp/seed_demo_%s_%s -lpthread" % (wt, src, prop, var))
+    d = sh("%s -std=gnu++17 -O1 -I%s/include %s/demo.cpp -o /var/tmp/seed_demo_%s_%s -lpthread %s" % (cxx, wt, src, prop, var, dflags))
     r0 = sh("timeout 300 /var/tmp/seed_demo_%s_%s" % (prop, var))
     meta["demo_without_change"] = {"exit": r0.returncode, "tail": r0.stdout[-200:]}
     sh("rm -f /var/tmp/seed_demo_%s_%s; rm -rf /var/tmp/seedcache_%s /var/tmp/seedevid_%s" % (prop, var, prop, prop))
